@@ -770,6 +770,15 @@ class Interp:
                 raise self.fault("ValueError", node, "not in list")
             if name == "count":
                 return Num.const(sum(1 for x in recv if self.py_eq(x, args[0]) is True))
+            if name == "insert":
+                recv.insert(int(self.to_py(args[0], node)), args[1])
+                return None
+            if name == "remove":
+                for i, x in enumerate(recv):
+                    if x is args[0] or self.py_eq(x, args[0]) is True:
+                        del recv[i]
+                        return None
+                raise self.fault("ValueError", node, "list.remove(x): x not in list")
         kind = self.kind_of(recv)
         if (kind, name) in self.libmeth:
             return self.libmeth[(kind, name)](self, recv, args, kwargs, node)
@@ -1982,6 +1991,17 @@ class Interp:
         E["builtins.zip"] = lambda I, a, k, n: list(zip(*[I.iterate(x, n) for x in a]))
         E["builtins.abs"] = lambda I, a, k, n: (Num.const(abs(a[0].value())) if isinstance(a[0], Num) and a[0].is_const()
                                                 else Num.atom(f"abs({I.describe(a[0])})"))
+        def b_round(I, a, k, n):
+            v = a[0]
+            nd = a[1] if len(a) > 1 else k.get("ndigits")
+            if isinstance(v, Num) and v.is_const() and (nd is None or (isinstance(nd, Num) and nd.is_const())):
+                return I.from_py(round(float(v.value()), None if nd is None else int(nd.value())))
+            if isinstance(v, Num):
+                return Num.atom(f"round({v.canon()},{I.describe(nd)})")
+            if _is_sym(v):
+                return _sp.Function("round")(v, num_to_sym(nd) if nd is not None else _sp.Integer(0))
+            return Opaque(f"round({I.describe(v)},{I.describe(nd)})")
+        E["builtins.round"] = b_round
         E["builtins.object.__init__"] = lambda I, a, k, n: None
         E["builtins.id"] = lambda I, a, k, n: Opaque("id")
         E["builtins.map"] = lambda I, a, k, n: [I.call_value(a[0], [x], {}, n) for x in I.iterate(a[1], n)]
